@@ -118,8 +118,12 @@ def maximum_correlation(dist, rvs=None, crvs=None, rv_mode=None):
     else:
         dist = dist.copy().coalesce(rvs)
 
-    dist.make_dense()
-    pmf = dist.pmf.reshape(list(map(len, dist.alphabet)))
+    # Build the joint table over the alphabets; the sample space need not be
+    # the full Cartesian product of the alphabets.
+    alphabet = [list(a) for a in dist.alphabet]
+    pmf = np.zeros([len(a) for a in alphabet])
+    for outcome, p in dist.zipped():
+        pmf[tuple(a.index(s) for a, s in zip(alphabet, outcome))] = p
 
     if crvs:
         rho_max = conditional_maximum_correlation_pmf(pmf)
